@@ -41,3 +41,95 @@ contract(F + "SoftAlignment.__init__",
          requires=["not check_validity"],
          binds={"self.unitary_alignments": "unitary_alignments", "self.continuum": "continuum", "self._disorder": "disorder"},
          serves={"C11", "C03", "C17"})
+
+# ------------------------------------------------------------------------------------------ UnitaryAlignment accessors
+contract(F + "UnitaryAlignment.n_tuple", params={"self": UAT()}, returns=ListOf(SlotT()), is_property=True,
+         ensures=[cl("result == self._n_tuple", name="the-tuple")], serves={"C12", "C17", "C10", "C03"})
+
+contract(F + "UnitaryAlignment.nb_units", params={"self": UAT()}, returns=IntT(), is_property=True,
+         ensures=[cl("result == psum(lam(k, ite(isnone(self._n_tuple[k][1]), 0, 1)), len(self._n_tuple))", name="number-of-real-units")],
+         serves={"C12", "C03"})
+
+contract(F + "UnitaryAlignment.disorder", params={"self": UAT()}, returns=RealT(), is_property=True,
+         raises={"ValueError": {"iff": "isnone(self._disorder)"}},
+         ensures=[cl("result == some(self._disorder)", name="the-cached-value")], serves={"C03", "C10"})
+
+contract(F + "Alignment.__iter__", params={"self": ALIGN()}, returns_expr="self.unitary_alignments",
+         ensures=[cl("result == self.unitary_alignments", name="the-list")], serves={"C12", "C17"})
+
+# ------------------------------------------------------------------------------------------ gamma_k_disorder  (C12, appendix A.4)
+# The categorical component is any CategoricalDissimilarity: its d() is the abstract interface contract below (assumed for the
+# abstract method, proved for AbsoluteCategoricalDissimilarity.d): a non-negative function of the two category names.
+from .dissimilarity import POS_MACROS     # noqa: E402
+
+CATD = ObjT("CategoricalDissimilarity", delta_empty=RealT())
+contract("pygamma_agreement/dissimilarity.py::CategoricalDissimilarity.d",
+         params={"self": CATD, "unit1": UnitT(), "unit2": UnitT()}, returns=RealT(), trusted=True,
+         ensures=["result == catd(self, unit1, unit2)", "result >= 0"],
+         notes="interface contract of the abstract method: the value depends on the two category names only and is >= 0")
+
+COMB = lambda: ObjT("CombinedCategoricalDissimilarity", alpha=RealT(), beta=RealT(), delta_empty=RealT(),     # noqa: E731
+                    positional_dissim=ObjT("PositionalSporadicDissimilarity", delta_empty=RealT()),
+                    categorical_dissim=ObjT("CategoricalDissimilarity", delta_empty=RealT()))
+
+GK_MACROS = POS_MACROS + [
+    Macro("UL", [], "self.unitary_alignments"),
+    Macro("nlen", ["t"], "len(self.unitary_alignments[t]._n_tuple)"),
+    Macro("su", ["t", "i"], "self.unitary_alignments[t]._n_tuple[i][1]"),
+    Macro("nb", ["t"], "psum(lam(k, ite(isnone(self.unitary_alignments[t]._n_tuple[k][1]), 0, 1)), nlen(t))"),
+    Macro("wb", ["t"], "ite(nb(t) < 2, 0, 1 / toreal(nb(t) - 1))"),
+    Macro("hascat", ["t", "i"], "not isnone(su(t, i)) and some(su(t, i)).annotation == category"),
+    Macro("counts", ["t", "i", "j"], "isnone(category) or hascat(t, i) or hascat(t, j)"),
+    Macro("posd", ["u", "v"], "POS(u.s, u.e, u.e - u.s, v.s, v.e, v.e - v.s) * dissimilarity.positional_dissim.delta_empty"),
+    Macro("wgt", ["t", "i", "j"], "wb(t) * max(0, 1 - dissimilarity.alpha * posd(some(su(t, i)), some(su(t, j))))"),
+    Macro("tnum", ["t", "i", "j"],
+          "ite(not counts(t, i, j) or (isnone(su(t, i)) and isnone(su(t, j))), 0, "
+          "ite(isnone(su(t, i)) or isnone(su(t, j)), dissimilarity.delta_empty * dissimilarity.delta_empty, "
+          "catd(dissimilarity.categorical_dissim, some(su(t, i)), some(su(t, j))) * wgt(t, i, j)))"),
+    Macro("tden", ["t", "i", "j"],
+          "ite(not counts(t, i, j) or (isnone(su(t, i)) and isnone(su(t, j))), 0, "
+          "ite(isnone(su(t, i)) or isnone(su(t, j)), dissimilarity.delta_empty, wgt(t, i, j)))"),
+    Macro("tany", ["t", "i", "j"], "counts(t, i, j)"),
+    Macro("treal", ["t", "i", "j"], "counts(t, i, j) and not isnone(su(t, i)) and not isnone(su(t, j))"),
+    Macro("N", [], "len(self.unitary_alignments)"),
+    Macro("acc_inv", ["t", "i", "j"],
+          "total_disorder == GN(t, i, j) and total_weight == GD(t, i, j) and no_cat == (not FA(t, i, j)) and no_loop == (not FR(t, i, j)) "
+          "and total_disorder >= 0 and total_weight >= 0 and implies(total_weight == 0, total_disorder == 0)"),
+]
+
+
+def fold_axioms(name, term, zero, plus):
+    return [f"{name}(0, 0, 0) == {zero}",
+            f"forall([t, i, j], implies(0 <= t and t < N() and 0 <= i and i < nlen(t) and 0 <= j and j < nlen(t) - i - 1, "
+            f"{name}(t, i, j + 1) == ({name}(t, i, j) {plus} {term}(t, i, i + 1 + j))), pat=[{name}(t, i, j + 1)])",
+            f"forall([t, i], implies(0 <= t and t < N() and 0 <= i and i < nlen(t), {name}(t, i + 1, 0) == {name}(t, i, nlen(t) - i - 1)),"
+            f" pat=[{name}(t, i + 1, 0)])",
+            f"forall(t, implies(0 <= t and t < N(), {name}(t + 1, 0, 0) == {name}(t, nlen(t), 0)), pat=[{name}(t + 1, 0, 0)])"]
+
+
+contract(F + "Alignment.gamma_k_disorder",
+         params={"self": ALIGN(), "dissimilarity": COMB(), "category": OptT(StrT())}, returns=RealT(), modifies=[],
+         coerce={"total_disorder": "Real", "total_weight": "Real", "weight_base": "Real"},
+         ghost_funs=[GhostFun("GN", "Int Int Int -> Real"), GhostFun("GD", "Int Int Int -> Real"),
+                     GhostFun("FA", "Int Int Int -> Bool"), GhostFun("FR", "Int Int Int -> Bool")],
+         macros=GK_MACROS,
+         axioms=fold_axioms("GN", "tnum", "0", "+") + fold_axioms("GD", "tden", "0", "+")
+                + fold_axioms("FA", "tany", "False", "or") + fold_axioms("FR", "treal", "False", "or"),
+         requires=["dissimilarity.delta_empty >= 0",
+                   "forall(t, 0, N(), forall(i, 0, nlen(t), implies(not isnone(su(t, i)), some(su(t, i)).e - some(su(t, i)).s > 1e-6)))"],
+         ensures=[cl("result == ite(not FR(N(), 0, 0), ite(not FA(N(), 0, 0), 1, 0), "
+                     "ite(GN(N(), 0, 0) == 0, 0, GN(N(), 0, 0) / GD(N(), 0, 0)))", "C12", name="weighted-mean-of-categorical-dissimilarity"),
+                  cl("result >= 0", "C12", name="non-negative")],
+         loops={"L0": dict(match="for unitary_alignment in self", index="tt", inv=["acc_inv(tt, 0, 0)"]),
+                "L0.0": dict(match="for i, (_, unit1) in enumerate(unitary_alignment.n_tuple)",
+                             inv=["acc_inv(tt, i, 0)", "nv == nb(tt)", "weight_base == wb(tt)"]),
+                "L0.0.0": dict(match="for _, unit2 in unitary_alignment.n_tuple[i + 1:]", index="jj",
+                               inv=["acc_inv(tt, i, jj)", "nv == nb(tt)", "weight_base == wb(tt)"])},
+         serves={"C12"})
+
+contract(F + "Alignment.gamma_k_disorder#not-combined",
+         params={"self": ALIGN(), "dissimilarity": ObjT("PositionalSporadicDissimilarity", delta_empty=RealT()), "category": OptT(StrT())},
+         returns=RealT(), modifies=[],
+         raises={"TypeError": {"iff": "true()"}},
+         notes="gamma-cat / gamma-k are refused for dissimilarities that are not the combined one",
+         serves={"C12"})
